@@ -280,7 +280,7 @@ func TestC04_Composite(t *testing.T) {
 
 // TestC04_CompositeCuts: EVERY proper prefix and every proper suffix of the honest message of every
 // composite parser (a truncation bug usually lives in a window of a few lengths: "header complete
-// but fewer than 16 bytes follow"); thorough tier additionally every single byte set to 0x00 / 0xff.
+// but fewer than 16 bytes follow"), and every single byte set to 0x00 / 0xff; thorough tier additionally every single bit flipped.
 func TestC04_CompositeCuts(t *testing.T) {
 	ev := evFor("C04")
 	for i, tg := range getCompositeTargets() {
@@ -299,14 +299,21 @@ func TestC04_CompositeCuts(t *testing.T) {
 				try("suffix", append([]byte(nil), tg.honest[n:]...))
 			}
 		}
-		if tier() == "thorough" {
-			for n := 0; n < len(tg.honest); n++ {
-				for _, v := range []byte{0x00, 0xff} {
-					if tg.honest[n] != v {
-						in := append([]byte(nil), tg.honest...)
-						in[n] = v
-						try("byteset-enum", in)
-					}
+		// every single byte forced to 0x00 / 0xff (padding bits of a trailing bit mask, length and flag
+		// bytes); thorough: every single bit flipped
+		for n := 0; n < len(tg.honest); n++ {
+			for _, v := range []byte{0x00, 0xff} {
+				if tg.honest[n] != v {
+					in := append([]byte(nil), tg.honest...)
+					in[n] = v
+					try("byteset-enum", in)
+				}
+			}
+			if tier() == "thorough" {
+				for b := 0; b < 8; b++ {
+					in := append([]byte(nil), tg.honest...)
+					in[n] ^= 1 << uint(b)
+					try("bitflip-enum", in)
 				}
 			}
 		}
